@@ -42,7 +42,8 @@ func IsCheckpoint(height uint64) bool {
 	if MaxCheckpoint == 0 {
 		return false
 	}
-	return height%CheckpointInterval == 0 && height/CheckpointInterval <= MaxCheckpoint
+	// the first checkpoint is at height CheckpointInterval: height 0 (genesis) has no entry in the table
+	return height != 0 && height%CheckpointInterval == 0 && height/CheckpointInterval <= MaxCheckpoint
 }
 
 // returns true if the given height is directly or indirectly checkpointed
